@@ -128,6 +128,8 @@ def queries(tier):
     for n in lens(4 if th else 3, 1):
         addp('String', ['pkg:t/n?checksum=', ('hole', 'h', n)], ALL)
     addp('String', ['pkg:t/n?checksum=a:', ('hole', 'h', 2 if th else 1), ',B:', ('hole', 'g', 2 if th else 1)], ALL)
+    for parts in STRUCT_TEMPLATES(1 if th else 0) + LONG_TEMPLATES():
+        addp('String', parts, ALL)
     # typed API exists with and without smartstring
     for ty in PT_VARIANTS:
         for n in lens(3 if th else 2, 1):
